@@ -32,6 +32,7 @@ ATOMS: list[tuple[str, tuple[str, ...], bool, str]] = [
     ('"ab"', (), False, ""),
     ('^"a"', (), False, "A"),
     ("'a'..'b'", (), False, "A"),
+    ("'a'..'a'", (), False, "A"),
     ("ANY", (), False, ""),
     ("SOI", (), True, ""),
     ("EOI", (), True, ""),
@@ -119,6 +120,7 @@ TRIVIA: list[tuple[str, str, str]] = [
     ("ws-bang", 'WHITESPACE = !{ " " ~ "#"? }\nCOMMENT = _{ "b#" }', " #"),
     ("ws-at", 'WHITESPACE = @{ " " ~ sp? }\nsp = { "#" }', " #"),
     ("cm-dollar", 'COMMENT = ${ "#" ~ sq* ~ "#" }\nsq = { "b" }\nWHITESPACE = _{ " " }', " #"),
+    ("cm-only-calls-nonatomic", 'COMMENT = _{ "#" ~ cq ~ "#"? }\ncq = !{ "b" ~ "b"? }', "#"),
     ("cm-calls-nonatomic", 'COMMENT = _{ "#" ~ cq }\ncq = !{ "b" ~ "b"? }\nWHITESPACE = { sp }\nsp = { " " }', " #"),
 ]
 
@@ -469,8 +471,10 @@ def skip_trivia_cases() -> list[dict]:
     cases = []
     for tlabel, trules, textra in TRIVIA:
         for mod in START_MODS:
-            for stop in ('"b"', '("b" | "ab")', "stop"):
-                g = f'start = {mod}{{ "a"? ~ (!{stop} ~ ANY)* ~ "b"? }}\nstop = {{ "ba" }}\n' + (trules + "\n" if trules else "")
+            for stop in ('"b"', '("b" | "ab")', "stop", '("a" | "b")', '("ab" | "b")'):
+                # the scanned region is a pair of its own, so that what the loop consumed shows in the tree
+                g = (f'start = {{ "a"? ~ body ~ "b"? }}\nbody = {mod}{{ (!{stop} ~ ANY)* }}\nstop = {{ "ba" }}\n'
+                     + (trules + "\n" if trules else ""))
                 cases.append({"family": "OPT", "label": f"skip-until under trivia {tlabel} / start {mod or 'normal'}",
                               "grammar": g, "rules": ["start"], "alphabet": alphabet_for("", textra)[:4],
                               "maxlen": 4, "starts": "zero", "passes": None})
